@@ -9,6 +9,21 @@ import (
 	"golang.org/x/tools/go/ssa"
 )
 
+// "(*server.LockManager).AddLock" -> "LockManager.AddLock"; "server.NewX" -> "NewX"
+func calleeQual(name string) string {
+	if strings.HasPrefix(name, "(") {
+		end := strings.Index(name, ")")
+		if end > 0 {
+			t := strings.TrimPrefix(name[1:end], "*")
+			if i := strings.LastIndex(t, "."); i >= 0 {
+				t = t[i+1:]
+			}
+			return t + name[end+1:]
+		}
+	}
+	return calleeShort(name)
+}
+
 func calleeShort(name string) string {
 	// "(*server.LockManager).AddLock" -> "AddLock"; "server.NewX" -> "NewX"
 	if i := strings.LastIndex(name, "."); i >= 0 {
@@ -35,6 +50,9 @@ func (fr *Frame) doCall(call *ssa.CallCommon, instr *ssa.Call, pos token.Pos) Va
 		short := call.Method.Name()
 		fr.callOrd[short]++
 		ord := fr.callOrd[short]
+		fr.countCall(short)
+		fr.curQual = calleeQual(key)
+		fr.countCall(fr.curQual)
 		fr.siteClauses(short, ord, "before", args, nil, Val{}, pos)
 		var r Val
 		if c, ok := vc.e.contracts[key]; ok {
@@ -75,13 +93,17 @@ func (fr *Frame) callFunc(f *ssa.Function, binds []Val, args []Val, resT types.T
 	short := calleeShort(name)
 	fr.callOrd[short]++
 	ord := fr.callOrd[short]
+	fr.countCall(short)
+	fr.curQual = calleeQual(name)
+	fr.countCall(fr.curQual)
+	qual := fr.curQual
 	fr.siteClauses(short, ord, "before", args, f, Val{}, pos)
 	var r Val
 	c := vc.e.contracts[name]
 	switch {
 	case nativeExternal(name):
 		r = fr.native(name, f, args, resT, pos)
-	case c != nil && !c.Inline && (len(c.Requires) > 0 || len(c.Ensures) > 0 || c.ModGiven || c.External || c.Trusted != ""):
+	case c != nil && !c.Inline && (len(c.Requires) > 0 || len(c.Ensures) > 0 || len(c.Assumes) > 0 || c.ModGiven || c.External || c.Trusted != ""):
 		r = fr.applyContract(c, f, f.Signature, args, resT, name, short, ord, pos)
 	case f.Blocks != nil && isInRepo(f) && fr.canInline(f):
 		r = fr.inline(f, binds, args, resT, short, ord)
@@ -99,6 +121,7 @@ func (fr *Frame) callFunc(f *ssa.Function, binds []Val, args []Val, resT types.T
 		fr.externalHavoc(f, args, ms)
 		r = vc.freshVal("ext_"+short, resT, fr.heap)
 	}
+	fr.curQual = qual
 	fr.siteClauses(short, ord, "after", args, f, r, pos)
 	return r
 }
@@ -143,8 +166,7 @@ func (fr *Frame) externalHavoc(f *ssa.Function, args []Val, ms *ModSet) {
 func (fr *Frame) havocMods(ms *ModSet) {
 	vc := fr.vc
 	if ms.All {
-		vc.havocAll(&fr.heap, "call")
-		return
+		vc.havocExcept(&fr.heap, ms.Except)
 	}
 	for _, m := range ms.list() {
 		vc.havocMap(&fr.heap, m)
@@ -255,7 +277,48 @@ func (fr *Frame) applyContract(c *Contract, f *ssa.Function, sig *types.Signatur
 	pre := fr.heap.clone()
 	// frame
 	if c.ModGiven {
-		fr.havocMods(vc.e.contractModsVC(vc, c))
+		vc.e.contractModsVC(vc, c)
+		ms := vc.e.contractWholeMods(c)
+		if !ms.All && len(vc.e.universe) > 0 && !c.External {
+			// frames are tracked inside the universe only: everything outside may change
+			vc.havocExcept(&fr.heap, vc.e.universe)
+		}
+		for m := range ms.Maps {
+			vc.frameCheckWhole(fr, m, pos, key)
+		}
+		if ms.All {
+			vc.frameCheckAll(fr, ms.Except, pos, key)
+		}
+		fr.havocMods(ms)
+		// object-restricted entries: only the named object's slot changes
+		for _, mo := range c.ModObj {
+			env := &Env{vc: vc, names: bind, heap: pre, old: pre, pkg: pkg, reach: fr.curReach}
+			ov, err := env.eval(mo.Expr)
+			if err != nil {
+				vc.warn("frame entry %s of %s: %v", mo.Src, key, err)
+				for _, n := range vc.e.resolveModName(c.Pkg, mo.Field) {
+					vc.havocMap(&fr.heap, n)
+				}
+				continue
+			}
+			obj := ov.T
+			if ov.Typ != nil {
+				if _, isSlice := ov.Typ.Underlying().(*types.Slice); isSlice {
+					obj = sApp("s-arr", ov.T)
+				}
+			}
+			for _, n := range vc.e.resolveModName(c.Pkg, mo.Field) {
+				srt, ok := vc.mapSorts[n]
+				if !ok {
+					continue
+				}
+				vc.frameCheck(fr, n, obj, pos)
+				// element sort of (Array Int X)
+				es := strings.TrimSuffix(strings.TrimPrefix(srt, "(Array Int "), ")")
+				nv := vc.free("fr_"+n, es)
+				vc.hset(&fr.heap, n, sApp("store", vc.hget(fr.heap, n), obj, nv))
+			}
+		}
 	} else if f != nil && f.Blocks != nil && isInRepo(f) {
 		fr.havocMods(vc.e.fnMods(f, map[*ssa.Function]bool{}))
 	} else if f != nil {
@@ -277,13 +340,32 @@ func (fr *Frame) applyContract(c *Contract, f *ssa.Function, sig *types.Signatur
 		gm := vc.ghostMap(g.Target)
 		vc.hset(&fr.heap, gm, sApp("store", vc.hget(pre, gm), idx.T, val.T))
 	}
+	if !c.External && f != nil {
+		if vc.used == nil {
+			vc.used = map[string]bool{}
+		}
+		vc.used[key] = true
+	}
 	// postconditions
-	for _, cl := range c.Ensures {
+	posts := append(append([]*Clause{}, c.Ensures...), c.Assumes...)
+	if len(c.Assumes) > 0 {
+		if vc.usedAssumes == nil {
+			vc.usedAssumes = map[string]bool{}
+		}
+		for _, cl := range c.Assumes {
+			vc.usedAssumes[key+": "+cl.Src] = true
+		}
+	}
+	for _, cl := range posts {
+		if vc.prop != "" && otherPropOnly(cl.Tags, vc.prop) {
+			continue // a check of property P relies only on clauses that are untagged or tagged P
+		}
 		env := &Env{vc: vc, names: bind, heap: fr.heap, old: pre, pkg: pkg, reach: fr.curReach}
 		env.result = res
 		t, err := env.evalBool(cl.Expr)
 		if err != nil {
-			vc.specError(fr.fn, cl, err)
+			// clauses over the callee's local variables are checked in the callee only; they say nothing to a caller
+			vc.warn("post of %s not usable at call site: %v", key, err)
 			continue
 		}
 		vc.assume(fr.curReach, t, "post of "+key)
@@ -360,11 +442,33 @@ func (fr *Frame) siteClauses(short string, ord int, when string, args []Val, f *
 	}
 	vc := fr.vc
 	for i, sc := range fr.contract.Sites {
-		if sc.Callee != short || (sc.Ordinal != 0 && sc.Ordinal != ord) || sc.When != when {
+		if (sc.Callee != short && sc.Callee != fr.curQual) || sc.When != when {
+			continue
+		}
+		if sc.Ordinal != 0 {
+			o := ord
+			if sc.Callee == fr.curQual && sc.Callee != short {
+				o = fr.qualOrd[fr.curQual]
+			}
+			if sc.Ordinal != o {
+				continue
+			}
+		}
+		if sc.Kind == "havoc" {
+			for _, m := range sc.Havoc {
+				for _, n := range vc.e.resolveModName(fr.contract.Pkg, m) {
+					if _, ok := vc.mapSorts[n]; !ok {
+						vc.e.declareMapByName(vc, n)
+					}
+					vc.havocMap(&fr.heap, n)
+				}
+			}
+			fr.secHeap = fr.heap.clone()
 			continue
 		}
 		env := fr.envAt(fr.curBlock, true, nil)
 		env.heap = fr.heap
+		env.sec = fr.secHeap
 		// arguments by position: arg0, arg1, ... and callee parameter names prefixed with "$"
 		for j, a := range args {
 			env.names[fmt.Sprintf("arg%d", j)] = a
@@ -646,4 +750,61 @@ func (fr *Frame) native(name string, f *ssa.Function, args []Val, resT types.Typ
 		return Val{}
 	}
 	return vc.freshVal("nat", resT, fr.heap)
+}
+
+// path counters of executed calls, kept in the heap so that they merge at joins: calls(Name) in specs
+func (fr *Frame) countCall(short string) {
+	vc := fr.vc
+	if strings.Contains(short, ".") {
+		if fr.qualOrd == nil {
+			fr.qualOrd = map[string]int{}
+		}
+		fr.qualOrd[short]++
+	}
+	if !vc.countNames[short] {
+		return
+	}
+	name := "$calls_" + strings.ReplaceAll(short, ".", "__")
+	vc.mapSort(name, "Int")
+	cur := vc.hget(fr.heap, name)
+	vc.hset(&fr.heap, name, sApp("+", cur, "1"))
+}
+
+// ---------------------------------------------------------------- object-level frames of the function under verification
+
+func (vc *VC) frameCheck(fr *Frame, m, obj string, pos token.Pos) {
+	allowed, restricted := vc.frameObj[m]
+	if !restricted || vc.frameWhole[m] {
+		return
+	}
+	var cs []string
+	for _, a := range allowed {
+		cs = append(cs, sEq(obj, a))
+	}
+	cs = append(cs, sApp(">=", obj, vc.alloc(vc.heap0))) // memory allocated by this activation
+	vc.frameN++
+	name := fmt.Sprintf("%s/frame-obj/%s#%d", fnName(vc.top), m, vc.frameN)
+	reach := "true"
+	if fr != nil {
+		reach = fr.curReach
+	}
+	vc.oblige("frame-obj", name, nil, reach, sOr(cs...), vc.top, pos, "store to "+m+" outside the declared objects")
+}
+
+func (vc *VC) frameCheckWhole(fr *Frame, m string, pos token.Pos, callee string) {
+	if _, restricted := vc.frameObj[m]; !restricted || vc.frameWhole[m] {
+		return
+	}
+	vc.frameN++
+	name := fmt.Sprintf("%s/frame-obj/%s#%d", fnName(vc.top), m, vc.frameN)
+	vc.oblige("frame-obj", name, nil, fr.curReach, "false", vc.top, pos, "callee "+callee+" may modify "+m+" of any object")
+}
+
+func (vc *VC) frameCheckAll(fr *Frame, except []string, pos token.Pos, callee string) {
+	for m := range vc.frameObj {
+		if vc.frameWhole[m] || matchPreserve(except, m) {
+			continue
+		}
+		vc.frameCheckWhole(fr, m, pos, callee)
+	}
 }
